@@ -28,13 +28,13 @@ use domain::dnssec::sign::traits::SignableZoneInPlace;
 use domain::dnssec::sign::SigningConfig;
 use domain::dnssec::validator::anchor::TrustAnchors;
 use domain::dnssec::validator::base::DnskeyExt;
-use domain::dnssec::validator::context::{ValidationContext, ValidationState};
+use domain::dnssec::validator::context::{Config as VConfig, ValidationContext, ValidationState};
 use domain::net::client::request::{
     ComposeRequest, Error as ReqError, GetResponse, RequestMessage, SendRequest,
 };
 use domain::rdata::dnssec::Timestamp;
 use domain::rdata::nsec3::{Nsec3Salt, OwnerHash};
-use domain::rdata::{Cname, Dname, Dnskey, Ds, Ns, Nsec3, Nsec3param, Soa, ZoneRecordData, A};
+use domain::rdata::{Aaaa, Cname, Dname, Dnskey, Ds, Ns, Nsec3, Nsec3param, Soa, ZoneRecordData, A};
 use serde_json::{json, Value};
 use std::collections::HashMap;
 use std::future::Future;
@@ -487,6 +487,10 @@ pub struct Resp {
     pub rcode: Rcode,
     pub sets: Vec<RRs>,
     pub zero_counts: bool,
+    /// every RRSIG precedes the RRset it covers
+    pub sigs_first: bool,
+    /// every record appears twice
+    pub duplicate: bool,
 }
 
 impl Resp {
@@ -502,16 +506,28 @@ impl Resp {
         }
         let mut q = mb.question();
         q.push((qname, qtype)).expect("q");
+        let order = |s: &RRs| -> Vec<Rec> {
+            let one: Vec<Rec> = if self.sigs_first {
+                s.sigs.iter().chain(s.recs.iter()).cloned().collect()
+            } else {
+                s.recs.iter().chain(s.sigs.iter()).cloned().collect()
+            };
+            if self.duplicate {
+                one.iter().chain(one.iter()).cloned().collect()
+            } else {
+                one
+            }
+        };
         let mut an = q.answer();
         for s in self.sets.iter().filter(|s| s.sec == 0) {
-            for r in s.recs.iter().chain(s.sigs.iter()) {
-                an.push(r.clone()).expect("push");
+            for r in order(s) {
+                an.push(r).expect("push");
             }
         }
         let mut au = an.authority();
         for s in self.sets.iter().filter(|s| s.sec == 1) {
-            for r in s.recs.iter().chain(s.sigs.iter()) {
-                au.push(r.clone()).expect("push");
+            for r in order(s) {
+                au.push(r).expect("push");
             }
         }
         let mut ad = au.additional();
@@ -542,6 +558,14 @@ pub struct World {
     pub leaf: &'static str,
     pub now: u32,
     pub anchor: String,
+    /// further trust anchor material (zone-file lines): the root key as DS,
+    /// the DNSKEYs of tld and of the sibling zone "other", and a DNSKEY / a
+    /// root DS for keys that sign nothing in this world
+    pub anchor_ds: String,
+    pub anchor_tld: String,
+    pub anchor_other: String,
+    pub anchor_unrelated: String,
+    pub anchor_stale_ds: String,
 }
 
 #[derive(Clone, Copy, PartialEq, Eq, Hash, Debug)]
@@ -602,6 +626,12 @@ fn leaf_content(apex: &N) -> Vec<Rec> {
         a(&sub("m2", apex), "192.0.2.12"),
         a(&sub("m3", apex), "192.0.2.13"),
         a(&sub("m4", apex), "192.0.2.14"),
+        // an existing name below the wildcard's parent (without the
+        // wildcard's type), a wildcard CNAME, and an existing name below its
+        // parent
+        rec(&sub("m.wild", apex), D::Aaaa(Aaaa::from_str("2001:db8::1").unwrap())),
+        rec(&sub("*.wc", apex), D::Cname(Cname::new(www.clone()))),
+        rec(&sub("m.wc", apex), D::Aaaa(Aaaa::from_str("2001:db8::2").unwrap())),
     ];
     // two delegation points without a child zone in this world: one with a
     // DS RRset (always in the NSEC3 chain) and one without
@@ -692,6 +722,12 @@ impl World {
             deleg(&tld, z_tld.key.as_ref()), now);
         let dk = z_root.rrset(&root, Rtype::DNSKEY);
         let anchor = format!(". 3600 IN DNSKEY {}\n", dk[0].data());
+        let anchor_ds = format!(". 3600 IN DS {}\n", ds_for(&root, z_root.key.as_ref().unwrap()));
+        let anchor_tld = format!("tld. 3600 IN DNSKEY {}\n", z_tld.rrset(&tld, Rtype::DNSKEY)[0].data());
+        let anchor_other = format!("other.tld. 3600 IN DNSKEY {}\n", z_other.rrset(&other, Rtype::DNSKEY)[0].data());
+        let stray = new_key(&root);
+        let anchor_unrelated = format!("elsewhere. 3600 IN DNSKEY {}\n", D::Dnskey(dnskey_bytes(&stray)));
+        let anchor_stale_ds = format!(". 3600 IN DS {}\n", ds_for(&root, &stray));
         if std::env::var("VERIF_DEBUG").is_ok() { eprintln!("ANCHOR {:?}", anchor); }
         zones.push(z_root);
         zones.push(z_tld);
@@ -701,7 +737,8 @@ impl World {
         }
         zones.push(z_other);
         zones.push(z_plain);
-        World { adv_keys: Arc::new(Mutex::new(HashMap::new())), coll_keys: Arc::new(Mutex::new(HashMap::new())), zones, leaf: leaf_id, now: bc.now, anchor }
+        World { adv_keys: Arc::new(Mutex::new(HashMap::new())), coll_keys: Arc::new(Mutex::new(HashMap::new())), zones, leaf: leaf_id, now: bc.now, anchor,
+                anchor_ds, anchor_tld, anchor_other, anchor_unrelated, anchor_stale_ds }
     }
 
     pub fn adv_key(&self, z: &Zone) -> Arc<Key> {
@@ -869,6 +906,34 @@ impl World {
                     }
                     break;
                 }
+                // a wildcard CNAME: expanded, with the proof that the name
+                // itself does not exist; continue at the target
+                let cn = z.rrset(&star, Rtype::CNAME);
+                if !cn.is_empty() && qtype != Rtype::CNAME {
+                    hops += 1;
+                    let tgt = match cn[0].data() {
+                        D::Cname(c) => c.cname().clone(),
+                        _ => unreachable!(),
+                    };
+                    let sigs: Vec<Rec> = z
+                        .sigs(&star, Rtype::CNAME)
+                        .into_iter()
+                        .map(|s| Record::new(name.clone(), s.class(), s.ttl(), s.data().clone()))
+                        .collect();
+                    let recs: Vec<Rec> = cn
+                        .into_iter()
+                        .map(|r| Record::new(name.clone(), r.class(), r.ttl(), r.data().clone()))
+                        .collect();
+                    sets.push(RRs { role: format!("cname{}", hops), sec: 0, recs, sigs });
+                    for p in proofs.into_iter().filter(|p| p.role == "nx") {
+                        Zone::push_unique(&mut sets, p);
+                    }
+                    if hops >= 4 {
+                        break;
+                    }
+                    name = tgt;
+                    continue;
+                }
                 // wildcard NODATA
                 sets.push(z.soa());
                 for p in proofs {
@@ -889,7 +954,7 @@ impl World {
             }
             break;
         }
-        Resp { rcode, sets, zero_counts: false }
+        Resp { rcode, sets, zero_counts: false, sigs_first: false, duplicate: false }
     }
 }
 
@@ -944,7 +1009,8 @@ pub fn apply(w: &World, resp: &mut Resp, st: &AdvStep) {
     let day = 86400u32;
     let idx = resp.sets.iter().position(|s| s.role == st.role);
     if idx.is_none() && !st.role.is_empty() && !st.act.starts_with("ReplayAncestor")
-        && st.act != "BadNsec3Label"
+        && st.act != "BadNsec3Label" && !st.act.starts_with("MisapplyWildcard")
+        && !st.act.starts_with("DenyExisting")
     {
         NOOP_REWRITE.store(true, std::sync::atomic::Ordering::SeqCst);
     }
@@ -1312,6 +1378,71 @@ pub fn apply(w: &World, resp: &mut Resp, st: &AdvStep) {
             resp.sets.push(RRs { role: "inj".into(), sec: 0, recs: p.rrset(&n, Rtype::A), sigs: vec![] });
         }
         "CnameLoop" => { /* handled by the choice of the question */ }
+        a if a.starts_with("MisapplyWildcard") => {
+            // the genuine wildcard RRset and RRSIG replayed where the wildcard
+            // does not apply, with genuine proof records of the zone
+            let z = w.zone(w.leaf);
+            let (qn, star, rt) = misapply_names(a, &z.apex);
+            let recs: Vec<Rec> = z.rrset(&star, rt).into_iter()
+                .map(|r| Record::new(qn.clone(), r.class(), r.ttl(), r.data().clone())).collect();
+            let sigs: Vec<Rec> = z.sigs(&star, rt).into_iter()
+                .map(|s| Record::new(qn.clone(), s.class(), s.ttl(), s.data().clone())).collect();
+            let cname = rt == Rtype::CNAME;
+            let mut sets = vec![RRs { role: if cname { "cname1" } else { "ans" }.into(), sec: 0, recs, sigs }];
+            if cname {
+                let www = sub("www", &z.apex);
+                sets.push(z.with_sigs("ans", 0, z.rrset(&www, Rtype::A)));
+            }
+            if a.ends_with("At") {
+                if let Some(p) = z.match_proof("nx", &qn) {
+                    sets.push(p);
+                }
+            } else {
+                if let Some(p) = z.cover_proof("nx", &qn) {
+                    sets.push(p);
+                }
+                if z.nsec3.is_some() {
+                    let ce = qn.parent().unwrap().to_name::<Bytes>();
+                    if let Some(p) = z.match_proof("ce", &ce) {
+                        Zone::push_unique(&mut sets, p);
+                    }
+                }
+            }
+            resp.sets = sets;
+            resp.rcode = Rcode::NOERROR;
+        }
+        a if a.starts_with("DenyExisting") => {
+            // NODATA / NXDOMAIN for an existing RRset, with the zone's SOA and
+            // the genuine NSEC / NSEC3 matching the name
+            let z = w.zone(w.leaf);
+            let www = sub("www", &z.apex);
+            let mut sets = vec![z.soa()];
+            if let Some(p) = z.match_proof(&st.role, &www) {
+                sets.push(p);
+            }
+            resp.sets = sets;
+            resp.rcode = if a.ends_with("Nx") { Rcode::NXDOMAIN } else { Rcode::NOERROR };
+        }
+        "SigsFirst" => {
+            resp.sigs_first = true;
+        }
+        "Duplicate" => {
+            resp.duplicate = true;
+        }
+        "OrphanSig" => {
+            // the RRset is gone, its RRSIGs stay
+            if let Some(i) = idx {
+                resp.sets[i].recs.clear();
+            }
+        }
+        "WrongSoa" => {
+            // the validly signed SOA of the sibling zone
+            if let Some(i) = idx {
+                let mut s = w.zone("other").soa();
+                s.sec = resp.sets[i].sec;
+                resp.sets[i] = s;
+            }
+        }
         other => panic!("unknown adversary action {}", other),
     }
 }
@@ -1482,10 +1613,19 @@ pub fn question(w: &World, qk: &str, plan: &[AdvStep]) -> (N, Rtype) {
     if let Some(s) = plan.iter().find(|s| s.act.starts_with("ReplayAncestor")) {
         return (sub("x", &ancestor_of(&s.act, leaf)), Rtype::A);
     }
+    if let Some(s) = plan.iter().find(|s| s.act.starts_with("MisapplyWildcard")) {
+        return (misapply_names(&s.act, leaf).0, Rtype::A);
+    }
+    if plan.iter().any(|s| s.act.starts_with("DenyExisting")) {
+        return (sub("www", leaf), Rtype::A);
+    }
     match qk {
         "positive" => (sub("www", leaf), Rtype::A),
         "wildcard" => (sub("x.wild", leaf), Rtype::A),
         "nodata" => (sub("www", leaf), Rtype::AAAA),
+        "wilddeep" => (sub("a.b.wild", leaf), Rtype::A),
+        "wcname" => (sub("x.wc", leaf), Rtype::A),
+        "wcnodata" => (sub("x.wild", leaf), Rtype::AAAA),
         "nxdomain" => (sub("nx", leaf), Rtype::A),
         "nxdeep" => (sub("nx", &w.mid()), Rtype::A),
         "cname1" => (sub("alias", leaf), Rtype::A),
@@ -1497,6 +1637,17 @@ pub fn question(w: &World, qk: &str, plan: &[AdvStep]) -> (N, Rtype) {
     }
 }
 
+/// (name the wildcard is replayed at, the wildcard, its type)
+fn misapply_names(act: &str, leaf: &N) -> (N, N, Rtype) {
+    if act.ends_with("CnameBelow") {
+        (sub("nx.m.wc", leaf), sub("*.wc", leaf), Rtype::CNAME)
+    } else if act.ends_with("At") {
+        (sub("m.wild", leaf), sub("*.wild", leaf), Rtype::A)
+    } else {
+        (sub("nx.m.wild", leaf), sub("*.wild", leaf), Rtype::A)
+    }
+}
+
 /// the delegation point / DNAME owner whose genuine proof record is replayed
 fn ancestor_of(act: &str, leaf: &N) -> N {
     if act.ends_with("Dname") {
@@ -1505,6 +1656,88 @@ fn ancestor_of(act: &str, leaf: &N) -> N {
         sub("ideleg", leaf)
     } else {
         sub("deleg", leaf)
+    }
+}
+
+/// The trust anchors of a scenario, built through the route `anc` names
+/// (Validator.tla: AnchorForms).
+pub fn anchors_for(w: &World, anc: &str) -> TrustAnchors {
+    match anc {
+        "" | "dnskey" => TrustAnchors::from_u8(w.anchor.as_bytes()).expect("anchor"),
+        // the root key as DS record (Node::trust_anchor -> has_ds)
+        "ds" => TrustAnchors::from_u8(w.anchor_ds.as_bytes()).expect("anchor"),
+        "add_u8" => {
+            let mut t = TrustAnchors::empty();
+            t.add_u8(w.anchor.as_bytes()).expect("anchor");
+            t
+        }
+        "reader" => TrustAnchors::from_reader(std::io::Cursor::new(w.anchor.as_bytes().to_vec()))
+            .expect("anchor"),
+        // several anchors and several records per anchor: an anchor for a
+        // name outside this world, then for the root a DS of a key that
+        // signs nothing and the genuine DNSKEY
+        "multi" => {
+            let mut t = TrustAnchors::from_u8(
+                format!("{}{}", w.anchor_unrelated, w.anchor_stale_ds).as_bytes(),
+            )
+            .expect("anchor");
+            t.add_u8(w.anchor.as_bytes()).expect("anchor");
+            t
+        }
+        // root and tld: the longest match wins
+        "both" => TrustAnchors::from_u8(format!("{}{}", w.anchor, w.anchor_tld).as_bytes())
+            .expect("anchor"),
+        "none" => TrustAnchors::empty(),
+        // only for the sibling zone: nothing above the names in question
+        "elsewhere" => TrustAnchors::from_u8(w.anchor_other.as_bytes()).expect("anchor"),
+        other => panic!("anchor form {}", other),
+    }
+}
+
+/// The validator configuration `cfg` names (Validator.tla: Cfgs); None: the
+/// context is made with ValidationContext::new.
+pub fn vconfig_for(cfg: &str) -> Option<VConfig> {
+    use std::time::Duration;
+    let mut c = VConfig::new();
+    match cfg {
+        "" | "default" => return None,
+        "new" => {}
+        // every setter with its documented default
+        "setdef" => {
+            c.set_max_node_cache(100);
+            c.set_max_nsec3_cache(100);
+            c.set_max_isig_cache(1000);
+            c.set_max_usig_cache(1000);
+            c.set_max_validity(Duration::from_secs(604800));
+            c.set_max_bogus_validity(Duration::from_secs(30));
+            c.set_bad_signatures(1);
+            c.set_nsec3_iter_insecure(100);
+            c.set_nsec3_iter_bogus(500);
+            c.set_max_cname_dname(11);
+        }
+        // smallest caches, shortest validities: must be invisible
+        "tiny" => {
+            c.set_max_node_cache(1);
+            c.set_max_nsec3_cache(1);
+            c.set_max_isig_cache(1);
+            c.set_max_usig_cache(1);
+            c.set_max_validity(Duration::from_secs(60));
+            c.set_max_bogus_validity(Duration::from_secs(1));
+        }
+        "bad2" => c.set_bad_signatures(2),
+        "cname1" => c.set_max_cname_dname(1),
+        "iterins0" => c.set_nsec3_iter_insecure(0),
+        "iterbog0" => c.set_nsec3_iter_bogus(0),
+        other => panic!("config {}", other),
+    }
+    Some(c)
+}
+
+pub fn context_for(w: &World, anc: &str, cfg: &str, upstream: Mock) -> ValidationContext<Mock> {
+    let ta = anchors_for(w, anc);
+    match vconfig_for(cfg) {
+        None => ValidationContext::new(ta, upstream),
+        Some(c) => ValidationContext::with_config(ta, upstream, c),
     }
 }
 
@@ -1535,6 +1768,8 @@ pub fn run_scenario(worlds: &mut Worlds, input: &Value, with_conn: bool) -> Outc
     let denial = parse_denial(input["denial"].as_str().unwrap_or(""));
     let qk = input["qk"].as_str().unwrap_or("").to_string();
     let plan = parse_adv(&input["adv"]);
+    let anc = input["anc"].as_str().unwrap_or("").to_string();
+    let cfg = input["cfg"].as_str().unwrap_or("").to_string();
     let pair = worlds.pair(shape, denial);
     let w = pair.0.clone();
     NOOP_REWRITE.store(false, std::sync::atomic::Ordering::SeqCst);
@@ -1560,8 +1795,7 @@ pub fn run_scenario(worlds: &mut Worlds, input: &Value, with_conn: bool) -> Outc
     let rt = tokio::runtime::Builder::new_current_thread().enable_time().build().expect("rt");
     let res = std::panic::catch_unwind(std::panic::AssertUnwindSafe(|| {
         rt.block_on(async {
-            let ta = TrustAnchors::from_u8(w.anchor.as_bytes()).expect("anchor");
-            let vc = ValidationContext::new(ta, infra.clone());
+            let vc = context_for(&w, &anc, &cfg, infra.clone());
             let mut last = json!({"state": "none"});
             for (i, pl) in plans.iter().enumerate() {
                 if flag("tps", i) {
@@ -1599,7 +1833,7 @@ pub fn run_scenario(worlds: &mut Worlds, input: &Value, with_conn: bool) -> Outc
     }
     let mut conn = None;
     if with_conn && plans.len() == 1 {
-        conn = Some(run_conn(&pair, &plan, &qname, qtype, false, false, true));
+        conn = Some(run_conn(&pair, &plan, &qname, qtype, false, false, true, &anc, &cfg));
     }
     let noop = NOOP_REWRITE.load(std::sync::atomic::Ordering::SeqCst);
     Outcome { noop, obs, fetches, conn }
@@ -1617,6 +1851,8 @@ pub fn run_conn(
     cd: bool,
     ad: bool,
     dnssec_ok: bool,
+    anc: &str,
+    cfg: &str,
 ) -> Value {
     use domain::net::client::validator::Connection;
     let w = pair.0.clone();
@@ -1628,9 +1864,13 @@ pub fn run_conn(
     let rt = tokio::runtime::Builder::new_current_thread().enable_time().build().expect("rt");
     let res = std::panic::catch_unwind(std::panic::AssertUnwindSafe(|| {
         rt.block_on(async {
-            let ta = TrustAnchors::from_u8(w.anchor.as_bytes()).expect("anchor");
-            let vc = Arc::new(ValidationContext::new(ta, infra.clone()));
-            let conn: Connection<Mock, Vec<u8>, Mock> = Connection::new(user.clone(), vc);
+            let vc = Arc::new(context_for(&w, anc, cfg, infra.clone()));
+            // the two constructors of Connection are routes to the same thing
+            let conn: Connection<Mock, Vec<u8>, Mock> = if cd == ad {
+                Connection::new(user.clone(), vc)
+            } else {
+                Connection::with_config(user.clone(), vc, domain::net::client::validator::Config::new())
+            };
             let mut mb = MessageBuilder::new_vec();
             mb.header_mut().set_rd(true);
             mb.header_mut().set_cd(cd);
@@ -1666,12 +1906,12 @@ pub fn run_conn(
 }
 
 /// the 8 request flag combinations
-pub fn conn_matrix(pair: &(Arc<World>, Arc<World>), plan: &[AdvStep], qname: &N, qtype: Rtype) -> Vec<(bool, bool, bool, Value)> {
+pub fn conn_matrix(pair: &(Arc<World>, Arc<World>), plan: &[AdvStep], qname: &N, qtype: Rtype, anc: &str, cfg: &str) -> Vec<(bool, bool, bool, Value)> {
     let mut v = Vec::new();
     for cd in [false, true] {
         for ad in [false, true] {
             for d in [false, true] {
-                v.push((cd, ad, d, run_conn(pair, plan, qname, qtype, cd, ad, d)));
+                v.push((cd, ad, d, run_conn(pair, plan, qname, qtype, cd, ad, d, anc, cfg)));
             }
         }
     }
